@@ -19,10 +19,18 @@ What is proved, for ALL `max_n`, `x`, `bound`, `compare` (unbounded integers):
 * `lt_sound` — for `0 ≤ x` (the leader-check domain) `LT` is right in the reals, with NO assumption
   on `bound`: every Taylor term is rounded down (`scale` floors, `div` truncates non-negatives),
   so the approximation is `≤ Real.exp x` (`Real.sum_le_exp_of_nonneg`), and the error term is a magnitude;
-* `sound_partial` — the part of `SoundFull` that follows (the `LT` half on `0 ≤ x`).
-Not proved: the `GT` half (needs a two-sided rounding-error analysis of the accumulated terms
-against the Lagrange remainder) and negative `x` (alternating terms, mixed rounding directions); both
-are checked on the implementation by the harness oracle (rigorous 90-digit enclosure of `e^x`) only.
+* `gt_sound_partial` — for `0 ≤ x ≤ 1` and `bound ≥ 2`, a `GT` verdict is right up to an explicit
+  slack of `(3·iterations + 3·bound)·10^-34` (each rounded-down term is at most 3 ulp below the true
+  one; Lagrange-type remainder from Mathlib's `Real.exp_bound'`);
+* `sound_partial` — the two together.
+**The full statement is FALSE for the reference algorithm itself** (a recorded known finding, not
+repairable without leaving the reference): `soundFull_fails_at_witness` — `x = 7.798…e-12`,
+`bound = 3`, `compare = 1.0000000000077982159505194176045364` gives `GT` after 2 iterations while
+`e^x = 1.00000000000779821595051941760453640966…`: the rounded-down upper bound lies 1.0966 ulp
+below `e^x`, so the grid point between them is misjudged. `gt_sound_partial` shows such a window is
+never wider than the stated slack. Not proved: anything for negative `x` (alternating terms, mixed
+rounding directions) and `GT` for `x > 1`; both are checked on the implementation by the harness
+oracle (rigorous 90-digit enclosure of `e^x`) on sampled inputs only.
 
 **Recorded deviation (repaired)**: the unrepaired tree used the SIGNED product `error * bound_x` as
 error term, so for negative `x` `upper < lower` at every other step and `GT` was returned for
@@ -100,11 +108,64 @@ theorem lt_sound (maxN : Nat) (x bound cmp : Int) (r : CmpRes) (hx : 0 ≤ x)
     exact div_lt_div_of_pos_right (by exact_mod_cast hcmp) P_real_pos
   linarith
 
-/-- the proved part of `SoundFull`: the `LT` half for `0 ≤ x` -/
-theorem sound_partial (maxN : Nat) (x bound cmp : Int) (r : CmpRes) (hx : 0 ≤ x)
-    (_hb : Real.exp |toReal x| ≤ (bound : ℝ)) (h : refExpCmp maxN x bound cmp = some r) :
-    r.estimation = .lt → toReal cmp < Real.exp (toReal x) :=
-  lt_sound maxN x bound cmp r hx h
+/-- **GT is sound up to an explicit slack** on `0 ≤ x ≤ 1`, `bound ≥ 2`:
+    `compare + (3·iterations + 3·bound)·10^-34 > e^x` -/
+theorem gt_sound_partial (maxN : Nat) (x bound cmp : Int) (r : CmpRes) (hx : 0 ≤ x) (hx1 : x ≤ P)
+    (hb : 2 ≤ bound) (h : refExpCmp maxN x bound cmp = some r) (hgt : r.estimation = .gt) :
+    Real.exp (toReal x) <
+      toReal cmp + (3 * (r.iterations : ℝ) + 3 * (bound : ℝ)) / (P : ℝ) := by
+  obtain ⟨hk, hc⟩ := (verdict_spec maxN x bound cmp r h).1 hgt
+  rw [approx_eq_taylor_prefix maxN x bound cmp r h] at hc
+  exact gt_slack x bound cmp hx hx1 hb r.iterations hk hc
+
+/-- the proved part of `SoundFull` on the leader-check domain `0 ≤ x ≤ 1`, `bound ≥ 2`:
+    `LT` exactly, `GT` up to the slack -/
+theorem sound_partial (maxN : Nat) (x bound cmp : Int) (r : CmpRes) (hx : 0 ≤ x) (hx1 : x ≤ P)
+    (hb : 2 ≤ bound) (h : refExpCmp maxN x bound cmp = some r) :
+    (r.estimation = .lt → toReal cmp < Real.exp (toReal x)) ∧
+    (r.estimation = .gt → Real.exp (toReal x) <
+      toReal cmp + (3 * (r.iterations : ℝ) + 3 * (bound : ℝ)) / (P : ℝ)) :=
+  ⟨lt_sound maxN x bound cmp r hx h, gt_sound_partial maxN x bound cmp r hx hx1 hb h⟩
+
+/-! ## the full statement fails for the reference algorithm itself (known finding) -/
+
+def wx : Int := 77982159504890115185311
+def wc : Int := 10000000000077982159505194176045364
+
+theorem gt_window_witness_run :
+    refExpCmp 1000 wx 3 wc = some ⟨2, .gt, 10000000000077982159505194176045363⟩ := by
+  decide +kernel
+
+theorem gt_window_witness_below : toReal wc < Real.exp (toReal wx) := by
+  have hr0 : (0 : ℝ) ≤ toReal wx := by simp only [toReal, wx, P]; positivity
+  have h := Real.sum_le_exp_of_nonneg hr0 4
+  simp only [Finset.sum_range_succ, Finset.sum_range_zero, Nat.factorial] at h
+  refine lt_of_lt_of_le ?_ h
+  simp only [toReal, wx, wc, P]
+  norm_num
+
+/-- `bound = 3` dominates `e^|x|` at the witness, the verdict is `GT`, and `compare < e^x` -/
+theorem soundFull_fails_at_witness : ¬ SoundFull := by
+  intro hs
+  have hx0 : (0 : ℝ) ≤ toReal wx := by simp only [toReal, wx, P]; positivity
+  have hx1 : toReal wx ≤ 1 := by simp only [toReal, wx, P]; norm_num
+  have hb : Real.exp |toReal wx| ≤ ((3 : Int) : ℝ) := by
+    rw [abs_of_nonneg hx0]
+    have h1 : Real.exp (toReal wx) ≤ Real.exp 1 := Real.exp_le_exp.mpr hx1
+    -- e ≤ 4 is not enough here; use e = 1/e^-1 with e^-1 ≥ (5/6)^6 > 1/3
+    have h2 : (5 : ℝ) / 6 ≤ Real.exp (-1 / 6) := by
+      have := Real.add_one_le_exp (-1 / 6 : ℝ); linarith
+    have h3 : Real.exp (-1) = Real.exp (-1 / 6) ^ 6 := by
+      rw [← Real.exp_nat_mul]; norm_num
+    have h4 : ((5 : ℝ) / 6) ^ 6 ≤ Real.exp (-1) := by
+      rw [h3]; exact pow_le_pow_left₀ (by norm_num) h2 6
+    have h5 : Real.exp 1 * Real.exp (-1) = 1 := by rw [← Real.exp_add]; norm_num
+    have h6 := Real.exp_pos 1
+    push_cast
+    have h7 : (1 : ℝ) / 3 < ((5 : ℝ) / 6) ^ 6 := by norm_num
+    nlinarith
+  have := (hs 1000 wx 3 wc _ hb gt_window_witness_run).1 rfl
+  exact absurd gt_window_witness_below (not_lt.mpr this.le)
 
 /-! ## the recorded (repaired) deviation -/
 
